@@ -176,15 +176,16 @@ Definition read_indexs (b : list N) (first : N * N) (interval : N) : res (list (
   | Panic => Panic
   end.
 
-(** move_to_index_by_count: the loop over successive 1024-byte reads.  At read_len = 0 the source
-    returns msg_count WITHOUT the records counted so far ([base]); kept as is. *)
+(** move_to_index_by_count: the loop over successive 1024-byte reads.  At read_len = 0 (end of the
+    file without an end marker) the repaired source returns the records counted so far as well
+    (C04: a file cut at its data cursor by an interrupted strip_log_to). *)
 Fixpoint scan_file (fuel : nat) (rd : rdr) (r : mbr) (c count cursor base : N)
   : res (N * N) :=
   match fuel with
   | O => Err
   | S fu =>
       match rdr_read rd 1024 with
-      | ([], _) => Ok (cursor, base)
+      | ([], _) => Ok (cursor, base + c)
       | (ch, rd') =>
           res_bind (mbr_append r ch) (fun r1 =>
           res_bind (drain_count (S (S (en r1 - st r1))) r1 c count cursor) (fun '(hit, c', cur', r2) =>
@@ -407,9 +408,9 @@ Definition strip_log_to (s : lim) (k : N) : res lim :=
       else (l_file s, l_indexs s, l_icur s) in
     let cic := k - fst ix in
     res_bind (move_to_index_by_count f1 ix (l_start s) cic) (fun '(dcur, cnt) =>
-    let f2 := data_write f1 dcur [0; 1] in
-    (* repaired: shrink to data_cursor, grow back: nothing of the removed suffix stays *)
-    let f3 := file_set_len (file_set_len f2 dcur) (l_flen s) in
+    (* repaired: shrink to data_cursor, grow back: nothing of the removed suffix stays; no [0;1]
+       marker is written first (C04: a kill behind the marker left the suffix in place) *)
+    let f3 := file_set_len (file_set_len f1 dcur) (l_flen s) in
     Ok (mkLim f3 ixs (l_start s) icur (l_flen s) dcur cnt (l_lterm s) cic (l_seek s) dcur (l_split s)))).
 
 Definition get_last_index_info (s : lim) : N * N :=
